@@ -99,7 +99,8 @@ def rand_case(rng, n_files=None):
     return {"name": rng.choice(["dep-1", "my.dep", "d_2", "Dep"]), "version": rng.choice(["1.0", "2.10.3", "0.1"]),
             "scripts": scripts, "sheets": sheets, "source_kind": rng.choice(["abs", "abs", "rel", "pkg", "pkg_libtest", "url", "url_slash", "none"]),
             "all_files": rng.random() < 0.25, "libdir": rng.choice(["lib", "lib", None, "a/b", "lib x"]), "include_version": rng.random() < 0.6,
-            "prepopulate": rng.random() < 0.5, "via": rng.choice(["document", "tag", "list", "copy_to"]), "missing": []}
+            "prepopulate": rng.random() < 0.5, "prepopulate_same_names": rng.random() < 0.5, "copied_before": rng.random() < 0.4,
+            "via": rng.choice(["document", "tag", "list", "copy_to"]), "missing": []}
 
 
 def build_dep(case, scratch):
@@ -133,6 +134,17 @@ def build_dep(case, scratch):
         source = {"href": "https://cdn.example/lib/"}
     else:
         source = None
+    if case.get("copied_before") and srcdir is not None and kind in ("abs", "rel", "pkg"):
+        # history: the same dependency definition was copied successfully earlier in this process
+        old = os.getcwd()
+        if cwd:
+            os.chdir(cwd)
+        try:
+            earlier = ht.HTMLDependency(case["name"], case["version"], source=source, script=[{"src": s} for s in scripts],
+                                        stylesheet=[{"href": s} for s in sheets])
+            earlier.copy_to(scratch.dir("earlier"), include_version=case["include_version"])
+        finally:
+            os.chdir(old)
     for m in case["missing"]:
         os.remove(os.path.join(srcdir, m))
     kw = {}
@@ -202,6 +214,13 @@ def _run_case(ctx, case, scratch, dep, srcdir, scripts, sheets, wit):
     target = os.path.join(destdir, depdir)
     if case["prepopulate"]:
         os.makedirs(os.path.join(target, "old", "nested"), exist_ok=True)
+        if case.get("prepopulate_same_names"):
+            # an earlier, different copy: the very file names that will be copied, with other bytes
+            for f in scripts + sheets:
+                pth = os.path.join(target, f)
+                os.makedirs(os.path.dirname(pth), exist_ok=True)
+                with open(pth, "w") as fh:
+                    fh.write("OLD VERSION OF " + f)
         for p in ("stale.txt", "old/nested/stale2.js", ".stale-hidden"):
             with open(os.path.join(target, p), "w") as f:
                 f.write("stale")
